@@ -1727,6 +1727,10 @@ def main():
     rs2coq_fmap.main(os.path.dirname(dst))
     import rs2coq_fsave          # part 17: file / string adapters, write side + file reading -> Gen/FsaveGen.v
     rs2coq_fsave.main(os.path.dirname(dst))
+    import rs2coq_model2         # part 18: the policy store as whole functions, macros.rs, convert.rs, default_cache.rs, error.rs -> Gen/Model2Gen.v
+    rs2coq_model2.main(os.path.dirname(dst))
+    import rs2coq_locks          # part 19: the lock discipline (skeletons of every function that reaches the role-manager lock) -> Gen/LocksGen.v
+    rs2coq_locks.main(os.path.dirname(dst))
     import rs2coq_rm             # part 11: DefaultRoleManager + bounded BFS -> Gen/RoleManagerGen.v
     rs2coq_rm.main(os.path.dirname(dst))
 
